@@ -105,3 +105,9 @@ def run(c):
     BB = "grin_servers::mining::mine_block::build_block"
     c.r1_all("template", BB, ["grin_core::core::block::Block::from_reward", "grin_core::core::block::Block::validate", "grin_chain::chain::Chain::set_txhashset_roots"], via=0)
     c.r2_arg("template-offset", BB, "grin_core::core::block::Block::validate", 1, must=["call:Chain::head_header", "re:total_kernel_offset$"])
+    # --- result discipline in the pool crate: the only discarded Results are the two tolerated re-add failures
+    c.r6("pool-results", ["grin_pool"], {
+        "grin_pool::pool::Pool::reconcile|Pool::add_to_pool|1": "reconcile drops entries that no longer validate against the new chain state",
+        "grin_pool::transaction_pool::TransactionPool::reconcile_reorg_cache|TransactionPool::add_to_txpool|1": "re-adding reorged-out transactions is best effort",
+    }, floor_checked=60)
+
